@@ -41,8 +41,11 @@ def load_table():
 
 def plan(tier, seed):
     n = 16 if tier == 'quick' else 64
-    return [{'count': 160 if tier == 'quick' else 900, 'cli': i < 3, 'deep': tier == 'thorough' and i % 4 == 1,
-             'spaced_bias': i % 2 == 0} for i in range(n)]
+    specs = [{'count': 160 if tier == 'quick' else 900, 'cli': i < 3, 'deep': tier == 'thorough' and i % 4 == 1,
+              'spaced_bias': i % 2 == 0} for i in range(n)]
+    for i in range(4):
+        specs.append({'kind': 'strings', 'slice': [i, 4]})
+    return specs
 
 
 def wordlike(t):
@@ -178,8 +181,37 @@ def check_cli(ctx, src, p, config, keep_file, workdir, case):
                           key=classify(want, problem) if problem else None)
 
 
+def run_strings(spec, ctx):
+    """The string-literal enumerator (every escape form x following characters, every raw byte) through the minifier:
+    luamin re-spells strings from their decoded value."""
+    from . import c07
+    i, k = spec['slice']
+    p = progen.Program()
+    for idx, src in enumerate(c07.gen_strings()):
+        if idx % k != i or not src.startswith(b's='):
+            continue
+        if reflex.try_lex(src)[1] is not None:
+            continue
+        case = {'src': src, 'config': 'default', 'keep_names': [], 'scopes': []}
+        ctx.case((src, 'strings'), nontrivial=False)
+        ctx.feature('string_enumerator_cases')
+        try:
+            L, out = minify.minify_lib(src, 'default')
+        except Exception as e:
+            ctx.violation('luamin raised %r on %r' % (e, src[:60]), case)
+            continue
+        problem, pairs, info = minify.align(src, out, None)
+        ctx.monitor('string_literals_aligned')
+        if problem is not None:
+            ctx.violation('library path: ' + problem[1], case, key=classify(src, problem))
+    ctx.sample({'string_source': b's="\\\\014x"'})
+
+
 def run_shard(spec, ctx):
     rng = ctx.rng
+    if spec.get('kind') == 'strings':
+        run_strings(spec, ctx)
+        return
     workdir = tempfile.mkdtemp(prefix='vf-c01-')
     try:
         for i in range(spec['count']):
@@ -239,6 +271,8 @@ def gates(m, tier):
             missed.append('configuration %s used %d times' % (c, f.get('config:' + c, 0)))
     if f.get('layout_spaced', 0) < 100:
         missed.append('pair-directed layout used %d times' % f.get('layout_spaced', 0))
+    if mon.get('string_literals_aligned', 0) < 5000:
+        missed.append('string enumerator through luamin: %d' % mon.get('string_literals_aligned', 0))
     if mon.get('cli_luamin_runs', 0) < 20 or mon.get('cli_build_minify_runs', 0) < 5:
         missed.append('CLI paths: luamin %d, build %d' % (mon.get('cli_luamin_runs', 0), mon.get('cli_build_minify_runs', 0)))
     # keep evidence small: drop the raw pair lists
